@@ -1,6 +1,7 @@
 package props
 
 import (
+	"encoding/binary"
 	"encoding/json"
 	"fmt"
 	"os"
@@ -137,19 +138,29 @@ func rosterString(m map[uint16]ref.UserInfo, only map[uint16]bool) string {
 }
 
 // newID finds the id the server gave to the connection that was just opened (the id present in
-// the probe's fresh list and not before).
+// the server's client table now and not before).
 func (x *c13World) newID(before []ref.UserInfo) (uint16, bool) {
 	old := map[uint16]int{}
 	for _, u := range before {
 		old[u.ID]++
 	}
-	for _, u := range x.list(x.probe) {
+	for _, u := range x.registered() {
 		if old[u.ID] == 0 {
 			return u.ID, true
 		}
 		old[u.ID]--
 	}
 	return 0, false
+}
+
+// registered: the ids in the server's client table (a user who has not agreed yet is registered, but not part of the
+// user list clients are sent).
+func (x *c13World) registered() []ref.UserInfo {
+	var out []ref.UserInfo
+	for _, c := range x.wd.Srv.ClientMgr.List() {
+		out = append(out, ref.UserInfo{ID: binary.BigEndian.Uint16(c.ID[:])})
+	}
+	return out
 }
 
 func (x *c13World) apply(op string, last bool) (enabled bool) {
@@ -166,7 +177,7 @@ func (x *c13World) apply(op string, last bool) (enabled bool) {
 		if s.status != 0 {
 			return false
 		}
-		before := x.list(x.probe)
+		before := x.registered()
 		s.sessions++
 		s.c = x.wd.Dial(fmt.Sprintf("10.0.%d.%d:%d", s.sessions, k+1, 2000+k))
 		s.c.Handshake()
@@ -183,7 +194,7 @@ func (x *c13World) apply(op string, last bool) (enabled bool) {
 		s.id, found = x.newID(before)
 		s.auto = ""
 		if !found {
-			x.fail("ids/new-connection-got-an-id-already-in-use", fmt.Sprintf("after %s the user list shows no new id, i.e. the new connection was given an id a connected user already holds (or is not listed): before %v after %v", op, before, x.list(x.probe)))
+			x.fail("ids/new-connection-got-an-id-already-in-use", fmt.Sprintf("after %s the user list shows no new id, i.e. the new connection was given an id a connected user already holds (or is not listed): before %v after %v", op, before, x.registered()))
 		}
 		if s.status == 2 {
 			x.baseRoster(s)
@@ -475,7 +486,13 @@ func (x *c13World) check() string {
 		}
 		s.c.Poll()
 		s.folded = len(s.c.Inbox)
-		a, b := rosterString(s.roster, complete), rosterString(fl, complete)
+		// "exactly the server's current list of users who have completed login": nobody else is in either
+		a, b := rosterString(s.roster, nil), rosterString(fl, nil)
+		for id := range fl {
+			if !complete[id] {
+				x.fail("roster/user-list-shows-a-user-who-has-not-completed-login", fmt.Sprintf("slot %d is sent a user list with id %d, which has logged in but not agreed yet and was never announced: %s", k, id, b))
+			}
+		}
 		if a != b {
 			x.fail("roster/folded-roster-differs-from-fresh-list", fmt.Sprintf("slot %d (id %d): folded %s fresh %s", k, s.id, a, b))
 		}
